@@ -87,6 +87,12 @@ class Exec(ExprMixin, AccessMixin, CallMixin, StmtMixin, SpecMixin, HeapMixin, O
     # declared class is an (implicit) precondition, checked here, and the contract is read with the narrowed view
     for pname, kind in con.params.items():
       a = env.get(pname)
+      # a contract written for scalar arguments must not be applied to a container argument (its clauses would be assumed
+      # for a case they were never verified for): the unit is undecided instead
+      if kind.tag == 'val' and kind.tags and not self.spec_mode:
+        static = 'tuple' if isinstance(a, VTuple) else (a.cls if isinstance(a, VRef) and a.cls in ('list', 'tuple', 'dict', 'set') else None)
+        if static is not None and static not in kind.tags and 'ref' not in kind.tags:
+          raise Unsupported('argument %s of %s is a %s, the contract declares %r' % (pname, con.name, static, kind.tags))
       if kind.tag == 'ref' and isinstance(a, VRef) and isinstance(a.cls, ClassInfo) and not self.spec_mode:
         want = self.ctx.registry.class_named(kind.arg)
         if isinstance(want, ClassInfo) and want is not a.cls and want.is_subclass_of(a.cls):
